@@ -100,6 +100,17 @@ def active_script() -> PoolScript | None:
     return _ACTIVE[-1] if _ACTIVE else None
 
 
+def _process_chunk(fn, chunk):
+    return [fn(*args) for args in chunk]
+
+
+def _chain_from_iterable_of_lists(iterable):
+    for element in iterable:
+        element.reverse()
+        while element:
+            yield element.pop()
+
+
 class SimFuture(cf.Future):
     """Future whose blocking accessors step the owning simulated pool."""
 
@@ -167,6 +178,22 @@ class SimPool(cf.Executor):
         self.script.counters.inc("tasks_submitted")
         self._dispatch()
         return fut
+
+    def map(self, fn, *iterables, timeout=None, chunksize=1):
+        """Like ProcessPoolExecutor.map: `chunksize` is validated and items travel in chunks of
+        that size, one task per chunk (a thread pool ignores it, like the real one)."""
+        if not self.pickle_boundary:
+            return super().map(fn, *iterables, timeout=timeout)
+        if chunksize < 1:
+            raise ValueError("chunksize must be >= 1.")
+        if chunksize == 1:
+            return super().map(fn, *iterables, timeout=timeout)
+        import functools
+        import itertools
+
+        results = super().map(functools.partial(_process_chunk, fn),
+                              itertools.batched(zip(*iterables), chunksize), timeout=timeout)
+        return _chain_from_iterable_of_lists(results)
 
     def shutdown(self, wait=True, *, cancel_futures=False):
         if cancel_futures:
